@@ -242,10 +242,9 @@ pub fn render(lines: &[L], c: &Cfg) -> Option<Rendered> {
             has_sibling = true;
         }
         3 => {
-            // declined zone: content-less scalar at document level with spaces-only lines + marker
-            if !has_text && c.ctx <= 1 && lines.iter().any(|l| matches!(l, L::Es | L::En)) {
-                return None;
-            }
+            // (a content-less scalar at document level with spaces-only lines followed by a marker
+            // was a declined zone while saphyr rejected it; since the F-C15a repair it is asserted)
+            let _ = has_text;
             s.push_str("...\n");
         }
         _ => {
